@@ -1062,3 +1062,493 @@ func ruleLCHAN(p *Program, r *Reporter) {
 		r.Info("L-CHAN: no unconditional send on a struct-field channel in package client")
 	}
 }
+
+// ---------------------------------------------------------------------------
+// ERR-USE — an error that is tested and found non-nil is not silently dropped:
+// in the code executed only when the error is set, the error value is used
+// (returned, wrapped, converted into a result, logged, sent, stored) or the
+// function returns a value that is not the success value... Structural form:
+// on the non-nil edge of `err != nil`, some instruction dominated by that edge
+// refers to err, or the edge leads straight to a return.
+
+func discoverErrUse(p *Program, pkgs map[string]bool, report func(fn *ssa.Function, call ssa.Value, iff *ssa.If, used, returns bool)) {
+	errT := types.Universe.Lookup("error").Type()
+	for _, fn := range p.srcFuncs {
+		if !pkgs[pkgOf(fn)] {
+			continue
+		}
+		for _, b := range fn.Blocks {
+			if len(b.Instrs) == 0 {
+				continue
+			}
+			iff, ok := b.Instrs[len(b.Instrs)-1].(*ssa.If)
+			if !ok {
+				continue
+			}
+			bo, ok := iff.Cond.(*ssa.BinOp)
+			if !ok || (bo.Op != token.NEQ && bo.Op != token.EQL) {
+				continue
+			}
+			var ev ssa.Value
+			if isNilConst(bo.Y) && types.Identical(bo.X.Type(), errT) {
+				ev = bo.X
+			} else if isNilConst(bo.X) && types.Identical(bo.Y.Type(), errT) {
+				ev = bo.Y
+			}
+			if ev == nil {
+				continue
+			}
+			// only errors that come from a call (directly or as a tuple member)
+			switch x := ev.(type) {
+			case *ssa.Call:
+			case *ssa.Extract:
+				if _, isCall := x.Tuple.(*ssa.Call); !isCall {
+					continue
+				}
+			default:
+				continue
+			}
+			bad := b.Succs[0]
+			if bo.Op == token.EQL {
+				bad = b.Succs[1]
+			}
+			used, returns := false, false
+			for _, d := range fn.Blocks {
+				// code executed only on failure; when the failing edge joins other paths at
+				// once (`if !changed || err != nil { return err }`), the join block itself
+				if !(len(bad.Preds) == 1 && bad.Dominates(d)) && d != bad {
+					continue
+				}
+				for _, ins := range d.Instrs {
+					if _, isRet := ins.(*ssa.Return); isRet {
+						returns = true
+					}
+					if _, isDbg := ins.(*ssa.DebugRef); isDbg {
+						continue
+					}
+					for _, op := range ins.Operands(nil) {
+						if op != nil && *op == ev {
+							used = true
+						}
+					}
+				}
+			}
+			report(fn, ev, iff, used, returns)
+		}
+	}
+}
+
+func ruleERRUSE(pkgs ...string) func(p *Program, r *Reporter) {
+	want := map[string]bool{}
+	for _, k := range pkgs {
+		want[k] = true
+	}
+	return func(p *Program, r *Reporter) {
+		const id = "ERR-USE"
+		discoverErrUse(p, want, func(fn *ssa.Function, ev ssa.Value, iff *ssa.If, used, returns bool) {
+			name := "error"
+			switch x := ev.(type) {
+			case *ssa.Call:
+				if sc := x.Call.StaticCallee(); sc != nil {
+					name = sc.Name()
+				} else if x.Call.IsInvoke() {
+					name = x.Call.Method.Name()
+				}
+			case *ssa.Extract:
+				if c, ok := x.Tuple.(*ssa.Call); ok {
+					if sc := c.Call.StaticCallee(); sc != nil {
+						name = sc.Name()
+					} else if c.Call.IsInvoke() {
+						name = c.Call.Method.Name()
+					}
+				}
+			}
+			ok := used || returns
+			r.Ob(id, funcName(fn), "error of "+name, iff.Cond.Pos(), ok, true,
+				ifs(ok, "the failing branch uses the error or ends the function", "the error of "+name+" is tested but, when set, neither used nor followed by a return: the failure is dropped and the operation is reported successful"))
+		})
+	}
+}
+
+// ---------------------------------------------------------------------------
+// ERR-LOOP — an error produced inside a loop is looked at before the loop goes
+// round again: an error value whose only uses are phi nodes (carried to the
+// next iteration or out of the loop) is overwritten by the next iteration's
+// result, so only the last element's failure survives.
+
+func errLoopSites(p *Program, pkgs map[string]bool, report func(fn *ssa.Function, ev ssa.Value, name string, ok bool)) {
+	errT := types.Universe.Lookup("error").Type()
+	for _, fn := range p.srcFuncs {
+		if !pkgs[pkgOf(fn)] {
+			continue
+		}
+		for _, b := range fn.Blocks {
+			if loopHeaderOf(b) == nil {
+				continue
+			}
+			for _, ins := range b.Instrs {
+				c, ok := ins.(*ssa.Call)
+				if !ok {
+					continue
+				}
+				var evs []ssa.Value
+				if types.Identical(c.Type(), errT) {
+					evs = append(evs, c)
+				} else if tup, ok := c.Type().(*types.Tuple); ok && tup.Len() > 0 && types.Identical(tup.At(tup.Len()-1).Type(), errT) {
+					if refs := c.Referrers(); refs != nil {
+						for _, r := range *refs {
+							if ex, ok := r.(*ssa.Extract); ok && ex.Index == tup.Len()-1 {
+								evs = append(evs, ex)
+							}
+						}
+					}
+				}
+				name := "call"
+				if sc := c.Call.StaticCallee(); sc != nil {
+					name = sc.Name()
+				} else if c.Call.IsInvoke() {
+					name = c.Call.Method.Name()
+				}
+				for _, ev := range evs {
+					refs := ev.Referrers()
+					if refs == nil {
+						continue
+					}
+					onlyPhi, n := true, 0
+					for _, r := range *refs {
+						if _, isDbg := r.(*ssa.DebugRef); isDbg {
+							continue
+						}
+						n++
+						if _, isPhi := r.(*ssa.Phi); !isPhi {
+							onlyPhi = false
+						}
+					}
+					if n == 0 {
+						continue // blank / unused result: errcheck's business, not a loop overwrite
+					}
+					report(fn, ev, name, !onlyPhi)
+				}
+			}
+		}
+	}
+}
+
+func ruleERRLOOP(pkgs ...string) func(p *Program, r *Reporter) {
+	want := map[string]bool{}
+	for _, k := range pkgs {
+		want[k] = true
+	}
+	return func(p *Program, r *Reporter) {
+		const id = "ERR-LOOP"
+		errLoopSites(p, want, func(fn *ssa.Function, ev ssa.Value, name string, ok bool) {
+			pos := ev.Pos()
+			if ex, isEx := ev.(*ssa.Extract); isEx {
+				pos = ex.Tuple.Pos()
+			}
+			r.Ob(id, funcName(fn), "error of "+name+" inside a loop", pos, ok, true,
+				ifs(ok, "the error is examined (tested, returned or passed on) in the iteration that produced it", "the error of "+name+" is only carried to the next iteration / out of the loop: a later successful element overwrites it and the failure is lost"))
+		})
+	}
+}
+
+// ---------------------------------------------------------------------------
+// X9 — index entries never share a set object. A uuidset stored into an index
+// map (or into the staging maps Create/Update/Delete build first) from inside
+// the per-index loop must have been created in that same iteration: the sets
+// are later modified in place (addUUIDSet/substractUUIDSet), so one object
+// reachable from two index entries lets a change of one index corrupt the other.
+
+func ruleX9(p *Program, r *Reporter) {
+	const id = "X9"
+	setT := p.LookupType("cache", "uuidset")
+	specs := p.Field("cache", "RowCache", "indexSpecs")
+	if setT == nil || specs == nil {
+		r.Anchor(id, "cache.uuidset / cache.RowCache.indexSpecs")
+		return
+	}
+	trio := p.PrivateRegion(p.Fn("cache", "RowCache", "Create"), p.Fn("cache", "RowCache", "Update"), p.Fn("cache", "RowCache", "Delete"))
+	var fns []*ssa.Function
+	for g := range trio {
+		fns = append(fns, g)
+	}
+	sort.Slice(fns, func(i, j int) bool { return fns[i].Pos() < fns[j].Pos() })
+	n := 0
+	for _, g := range fns {
+		for _, b := range g.Blocks {
+			for _, ins := range b.Instrs {
+				mu, ok := ins.(*ssa.MapUpdate)
+				if !ok || !types.Identical(mu.Value.Type(), setT) {
+					continue
+				}
+				if !dominatedBySpecLoop(b, specs) {
+					continue
+				}
+				h := loopHeaderOf(b)
+				if h == nil {
+					continue
+				}
+				// where does the stored set come from?
+				var def ssa.Instruction
+				switch v := mu.Value.(type) {
+				case *ssa.Call:
+					def = v
+				case *ssa.MakeMap:
+					def = v
+				case *ssa.ChangeType:
+					if d, ok := v.X.(ssa.Instruction); ok {
+						def = d
+					}
+				default:
+					continue // an element read back from a staging map, a parameter: created elsewhere, judged there
+				}
+				if def == nil {
+					continue
+				}
+				if c, isCall := def.(*ssa.Call); isCall {
+					// only constructors count (a call returning a fresh set)
+					sc := c.Call.StaticCallee()
+					if sc == nil || pkgOf(sc) != "cache" {
+						continue
+					}
+				}
+				n++
+				// outermost enclosing loop over indexSpecs: the definition must lie inside it
+				outer := h
+				for x := h; x != nil; x = loopHeaderOf(x.Idom()) {
+					if dominatedBySpecLoop(x, specs) || x == h {
+						outer = x
+					}
+					if x.Idom() == nil {
+						break
+					}
+				}
+				inside := inLoopOf(outer, def.Block()) || inLoopOf(h, def.Block())
+				r.Ob(id, funcName(g), "set stored per index", mu.Pos(), inside, true,
+					ifs(inside, "the set stored into the index map is created in the same iteration of the per-index loop", "the same set object is stored for every index of the row (created outside the per-index loop): an in-place update of one index entry empties or changes the entries of the row's other indexes"))
+			}
+		}
+	}
+	if n < 2 {
+		r.Anchor(id, fmt.Sprintf("Create/Update/Delete: %d stores of a freshly created uuidset inside the per-index loop, expected >= 2", n))
+	}
+}
+
+// ---------------------------------------------------------------------------
+// N-SKIP — the substitution pass of ExpandNamedUUIDs, which is also the only
+// place where the table (and the columns named in conditions) of an operation
+// are validated, is not skipped for any operation that carries a table:
+// insert, select, update, mutate, delete, wait. Decided per operation constant
+// by propagating that constant through the comparisons of op.Op in the loop
+// body: no path from the body entry to the next iteration avoids the table
+// lookup.
+
+func ruleNSKIP(p *Program, r *Reporter) {
+	const id = "N-SKIP"
+	root := p.Fn("ovsdb", "", "ExpandNamedUUIDs")
+	opFld := p.Field("ovsdb", "Operation", "Op")
+	if root == nil || opFld == nil {
+		r.Anchor(id, "ovsdb.ExpandNamedUUIDs / ovsdb.Operation.Op")
+		return
+	}
+	tableOps := []string{"insert", "select", "update", "mutate", "delete", "wait"}
+	isOpLoad := func(v ssa.Value) bool {
+		ld, ok := v.(*ssa.UnOp)
+		if !ok || ld.Op != token.MUL {
+			return false
+		}
+		fa, ok := ld.X.(*ssa.FieldAddr)
+		return ok && fieldOfAddr(fa) == opFld
+	}
+	n := 0
+	for g := range p.PrivateRegion(root) {
+		for _, b := range g.Blocks {
+			for _, ins := range b.Instrs {
+				c, ok := ins.(*ssa.Call)
+				if !ok {
+					continue
+				}
+				sc := c.Call.StaticCallee()
+				if sc == nil || sc.Name() != "Table" || sc.Signature.Recv() == nil || !isNamed(deref(sc.Signature.Recv().Type()), repoMod+"/ovsdb", "DatabaseSchema") {
+					continue
+				}
+				h := loopHeaderOf(b)
+				if h == nil {
+					continue
+				}
+				for _, opv := range tableOps {
+					n++
+					skipped := false
+					for _, s := range h.Succs {
+						if !inLoopOf(h, s) || s == h {
+							continue
+						}
+						if enumPathAvoiding(s, h, b, isOpLoad, opv) {
+							skipped = true
+						}
+					}
+					r.Ob(id, funcName(g), "table of "+opv+" validated", c.Pos(), !skipped, true,
+						ifs(!skipped, "every "+opv+" operation reaches the table lookup of the substitution pass", "a "+opv+" operation can go round the loop without the table lookup and the substitution: its table and condition columns are never validated (later code dereferences their schema) and the names it uses stay unresolved"))
+				}
+			}
+		}
+	}
+	if n < 6 {
+		r.Anchor(id, "ExpandNamedUUIDs: schema.Table lookup inside the substitution loop")
+	}
+}
+
+// enumPathAvoiding: with the scrutinee fixed to the string val, is there a path
+// from block `from` to block `to` that never enters `avoid`? Branches on
+// scrutinee ==/!= "const" are decided; all others are taken both ways.
+func enumPathAvoiding(from, to, avoid *ssa.BasicBlock, isScrutinee func(ssa.Value) bool, val string) bool {
+	seen := map[*ssa.BasicBlock]bool{}
+	work := []*ssa.BasicBlock{from}
+	for len(work) > 0 {
+		b := work[len(work)-1]
+		work = work[:len(work)-1]
+		if seen[b] || b == avoid {
+			continue
+		}
+		seen[b] = true
+		if b == to {
+			return true
+		}
+		succs := b.Succs
+		if len(b.Instrs) > 0 {
+			if iff, ok := b.Instrs[len(b.Instrs)-1].(*ssa.If); ok && len(b.Succs) == 2 {
+				if bo, ok := iff.Cond.(*ssa.BinOp); ok && (bo.Op == token.EQL || bo.Op == token.NEQ) {
+					var cst *ssa.Const
+					if isScrutinee(bo.X) {
+						cst, _ = bo.Y.(*ssa.Const)
+					} else if isScrutinee(bo.Y) {
+						cst, _ = bo.X.(*ssa.Const)
+					}
+					if cst != nil && cst.Value != nil && cst.Value.Kind() == constant.String {
+						eq := constant.StringVal(cst.Value) == val
+						if bo.Op == token.NEQ {
+							eq = !eq
+						}
+						if eq {
+							succs = b.Succs[:1]
+						} else {
+							succs = b.Succs[1:]
+						}
+					}
+				}
+			}
+		}
+		work = append(work, succs...)
+	}
+	return false
+}
+
+// ---------------------------------------------------------------------------
+// R-LEADER — the leadership verdict is taken from the _Server.Database row of
+// the client's own database: inside the loop over the rows, every successful
+// return is dominated by the edge on which the row's name equals primaryDBName.
+
+func ruleRLEADER(p *Program, r *Reporter) {
+	const id = "R-LEADER"
+	fn := p.Fn("client", "ovsdbClient", "isEndpointLeader")
+	nameFld := p.Field("client", "ovsdbClient", "primaryDBName")
+	if fn == nil || nameFld == nil {
+		r.Anchor(id, "client.(*ovsdbClient).isEndpointLeader / primaryDBName")
+		return
+	}
+	n := 0
+	for g := range p.PrivateRegion(fn) {
+		var eqEdge, cmpBlock *ssa.BasicBlock
+		for _, b := range g.Blocks {
+			if len(b.Instrs) == 0 {
+				continue
+			}
+			iff, ok := b.Instrs[len(b.Instrs)-1].(*ssa.If)
+			if !ok {
+				continue
+			}
+			bo, ok := iff.Cond.(*ssa.BinOp)
+			if !ok || (bo.Op != token.EQL && bo.Op != token.NEQ) {
+				continue
+			}
+			isName := func(v ssa.Value) bool {
+				ld, ok := v.(*ssa.UnOp)
+				if !ok {
+					return false
+				}
+				fa, ok := ld.X.(*ssa.FieldAddr)
+				return ok && fieldOfAddr(fa) == nameFld
+			}
+			if !isName(bo.X) && !isName(bo.Y) {
+				continue
+			}
+			if loopHeaderOf(b) == nil {
+				continue
+			}
+			cmpBlock = b
+			eqEdge = b.Succs[0]
+			if bo.Op == token.NEQ {
+				eqEdge = b.Succs[1]
+			}
+		}
+		if cmpBlock == nil {
+			continue
+		}
+		h := loopHeaderOf(cmpBlock)
+		for _, b := range g.Blocks {
+			if !inLoopOf(h, b) && !(h.Dominates(b) && blockReaches(cmpBlock, b) && b != h) {
+				continue
+			}
+			ret, ok := b.Instrs[len(b.Instrs)-1].(*ssa.Return)
+			if !ok || len(ret.Results) == 0 {
+				continue
+			}
+			if c, isC := ret.Results[len(ret.Results)-1].(*ssa.Const); !isC || !c.IsNil() {
+				continue
+			}
+			// returns after the loop ran out of rows are not verdicts about a row
+			if !blockReachesAvoiding(h, b, nil) || !loopBodyReturn(h, b) {
+				continue
+			}
+			n++
+			ok2 := len(eqEdge.Preds) == 1 && eqEdge.Dominates(b)
+			r.Ob(id, funcName(g), "verdict from our database's row", ret.Pos(), ok2, true,
+				ifs(ok2, "this verdict is only reached for the row whose name is the client's database", "a leadership verdict is returned for a row that was not checked to be the client's own database: the _Server row of another database (e.g. _Server itself, not clustered) makes a follower look like the leader"))
+		}
+	}
+	if n < 2 {
+		r.Anchor(id, fmt.Sprintf("isEndpointLeader: %d per-row verdict returns, expected >= 2", n))
+	}
+}
+
+// loopBodyReturn: the return block is reached from the loop body without
+// passing through the loop header again (i.e. it is an exit taken from inside
+// an iteration, not the code after the loop's normal end).
+func loopBodyReturn(h, ret *ssa.BasicBlock) bool {
+	for _, s := range h.Succs {
+		if inLoopOf(h, s) && s != h {
+			if blockReachesAvoiding(s, ret, h) {
+				return true
+			}
+		}
+	}
+	return false
+}
+
+func blockReachesAvoiding(from, to, avoid *ssa.BasicBlock) bool {
+	seen := map[*ssa.BasicBlock]bool{}
+	work := []*ssa.BasicBlock{from}
+	for len(work) > 0 {
+		b := work[len(work)-1]
+		work = work[:len(work)-1]
+		if seen[b] || b == avoid {
+			continue
+		}
+		seen[b] = true
+		if b == to {
+			return true
+		}
+		work = append(work, b.Succs...)
+	}
+	return false
+}
